@@ -33,18 +33,19 @@ pub fn families(prop: &str) -> Families {
         req_blocks: false,
         cenum_crlf: false,
         cenum_block_only: false,
+        blank_enum: false,
         comment_pairs: false,
         respace: false,
     };
     match prop {
         // C02's quantifier has sort_requires off
-        "C01" => Families { comment_enum: true, comment_pairs: true, ..base },
+        "C01" => Families { blank_enum: true, comment_enum: true, comment_pairs: true, ..base },
         "C03" => Families { comment_enum: true, comment_pairs: true, crlf_corpus: true, ..base },
-        "C02" => Families { corpus_sort: false, comment_enum: true, comment_pairs: true, ..base },
-        "C06" => Families { respace: true, comment_enum: true, cenum_block_only: true, req_blocks: true, luau_rich: false, corpus_ranges: false, corpus_sort: false, tame: true, no_collapse: true, mutants: false, seeded_critical: false, seeded_ranges: false, pinned_gen: 900, seeded_min_width: 120, seeded_scale: 3, ..base },
+        "C02" => Families { blank_enum: true, corpus_sort: false, comment_enum: true, comment_pairs: true, ..base },
+        "C06" => Families { crlf_corpus: true, blank_enum: true, respace: true, comment_enum: true, cenum_block_only: true, req_blocks: true, luau_rich: false, corpus_ranges: false, corpus_sort: false, tame: true, no_collapse: true, mutants: false, seeded_critical: false, seeded_ranges: false, pinned_gen: 900, seeded_min_width: 120, seeded_scale: 3, ..base },
         // panics and step budgets under the comment enumerations too (comments take the rarely used paths)
-        "C07" => Families { comment_enum: true, comment_pairs: true, ..base },
-        "C10" => Families { corpus_ranges: false, crlf_corpus: true, comment_enum: true, cenum_crlf: true, comment_pairs: true, ..base },
+        "C07" => Families { blank_enum: true, comment_enum: true, comment_pairs: true, ..base },
+        "C10" => Families { blank_enum: true, corpus_ranges: false, crlf_corpus: true, comment_enum: true, cenum_crlf: true, comment_pairs: true, ..base },
         _ => base,
     }
 }
